@@ -229,6 +229,41 @@ def check_case(case):
                     res.violation(f"component|{how} wrong component", f"s[{nm!r}] is not Stokes {nm} (shape {cv.shape} vs "
                                   f"{vs[:, :, k].shape})", case, {"name": nm})
                 res.hits["component by name"] += 1
+    # ---- histories on one Stokes object: read a component, modify in place, read again (no stale components)
+    s = z.to_stokes()
+    for how in ("getitem", "attr"):
+        for op in ("*=3", "out=", "+=1"):
+            s2 = type(s).like(s, s.data * 1)
+            first = {nm: (s2[nm] if how == "getitem" else getattr(s2, "stokes" + nm)) for nm in "IQUV"}
+            if op == "*=3":
+                s2 *= 3
+            elif op == "out=":
+                np.multiply(s2, 0.5, out=s2)
+            else:
+                s2 += 1
+            res.transitions += 9
+            res.traces += 1
+            now = values(s2)
+            for k, nm in enumerate("IQUV"):
+                c = s2[nm] if how == "getitem" else getattr(s2, "stokes" + nm)
+                if not np.array_equal(values(c), now[:, :, k]):
+                    res.violation(f"history|stale component ({how})", f"after reading {nm}, '{op}' on the Stokes signal, reading {nm} "
+                                  f"again does not show the current data", case, {"how": how, "op": op, "name": nm})
+                    break
+            res.hits["component read, in-place write, component read"] += 1
+    # conversions after an in-place change and after assigning pol_type
+    zz = type(z).like(z, z.data * 1)
+    _ = zz.to_stokes(), zz.to_circular()
+    zz *= 2
+    if not np.allclose(values(zz.to_stokes()), 4 * values(z.to_stokes()), rtol=1e-5):
+        res.violation("history|stale conversion", "to_stokes after 'z *= 2' does not reflect the new data", case, None)
+    other = "circular" if case["basis"] == "linear" else "linear"
+    zz.pol_type = "".join(list(other))
+    same = zz.to_circular() if other == "circular" else zz.to_linear()
+    if not np.array_equal(values(same), values(zz)):
+        res.violation("history|pol_type assignment ignored", f"after assigning pol_type={other!r} the conversion to {other} is not the "
+                      f"identity", case, None)
+    res.transitions += 6
     if trailing:
         res.hits["trailing dimension"] += 1
     if case["align"] != "center":
@@ -244,7 +279,7 @@ def check_case(case):
 def main(argv=None):
     return report.run_check(
         PID, gen_cases=gen_cases, check_case=check_case, describe=describe,
-        required_hits=["identity when already in basis", "Stokes from the other basis", "component by name",
+        required_hits=["identity when already in basis", "Stokes from the other basis", "component by name", "component read, in-place write, component read",
                        "trailing dimension", "non-center alignment", "dask backend"],
         assumptions=["inputs are dyadic rationals so the formulas are exact up to the final 1/sqrt2; budget 8 eps(dtype) max|.| "
                      "(16 eps max^2 for quadratic quantities)"],
